@@ -57,12 +57,14 @@ def main() -> int:
             result["confirmed"]["tests_with_change"] = out.strip().splitlines()[-1] if out.strip() else ""
             result["confirmed"]["tests_pass"] = " passed" in out and "failed" not in out and "error" not in out.lower()
             demo = dest / "demo.py"
-            shutil.copy(demo, Path(wt) / "_demo.py")
-            rc1, out1 = sh("/venv/bin/python _demo.py", cwd=wt, env=env)
+            # as the authors ran it: <checkout>/_seed/<name>/demo.py, from the checkout's root
+            (Path(wt) / "_seed" / name).mkdir(parents=True, exist_ok=True)
+            shutil.copy(demo, Path(wt) / "_seed" / name / "demo.py")
+            rc1, out1 = sh(f"/venv/bin/python _seed/{name}/demo.py", cwd=wt, env=env)
             result["confirmed"]["demo_with_change_rc"] = rc1
             result["confirmed"]["demo_with_change_tail"] = out1.strip()[-300:]
             sh("git checkout -- liquid2", cwd=wt)
-            rc0, out0 = sh("/venv/bin/python _demo.py", cwd=wt, env=env)
+            rc0, out0 = sh(f"/venv/bin/python _seed/{name}/demo.py", cwd=wt, env=env)
             result["confirmed"]["demo_without_change_rc"] = rc0
     finally:
         sh(f"git -C {REPO} worktree remove --force {wt}")
